@@ -27,6 +27,9 @@ THEOREMS = [
     "BeyondVerif.C15.setFrame_error_atomic",
     "BeyondVerif.C15.setFrame_error_frame",
     "BeyondVerif.C15.stdDeepcopy_separate",
+    "BeyondVerif.C15.infosTest_never",
+    "BeyondVerif.C15.getInfos_own",
+    "BeyondVerif.C15.getInfos_frame",
     "BeyondVerif.C15.copyForm_ok_new",
     "BeyondVerif.C15.transformObj_separate",
     "BeyondVerif.C15.covSetFrame_error_atomic",
@@ -71,6 +74,8 @@ THEOREMS = [
     "BeyondVerif.C15W.as_orbit_cov_separate",
     "BeyondVerif.C15W.pickle_gives_working_object",
     "BeyondVerif.C15W.deepcopy_shares_nothing",
+    "BeyondVerif.C15W.copy_hands_over_infos_entry",
+    "BeyondVerif.C15W.cached_infos_test_would_answer_with_the_original",
     "BeyondVerif.C15W.frame_change_fails_after_state_moved",
     "BeyondVerif.C15W.frame_change_moves_state_and_covariance",
     "BeyondVerif.C15W.cov_from_cov_has_own_buffer",
@@ -88,7 +93,8 @@ LEVEL_TEXT = ("Lean theorems over an object-graph (heap) model of StateVector/Or
               "failing frame assignment — unknown name, Hill, unreachable centre, missing EOP data, the covariance that has to follow cannot be converted — from ANY form leaves form, frame, _data and every cell but the coordinate buffer "
               "bit-identical and the buffer untouched or the round trip form->cartesian->form of its content (setFrame_error_atomic, setFrame_error_frame, in full since /repo 45ca5d0); a failing FORM change — unknown name or the conversion raising on any leg "
               "of its route — leaves the heap bit-identical, proved over the order of effects of the setter read from its AST on every run (formSteps_atomicOrder by kernel decide, setForm_error_atomic; setFormX_eq_setForm ties the interpreted order to the "
-              "hand-written setter of the other theorems); the object Frame.transform returns is separate from its argument (transformObj_separate); copy.deepcopy writes no old cell and stores only new "
+              "hand-written setter of the other theorems); the helper `sv.infos` hands out is bound to sv in EVERY heap, i.e. after any history of reads, copies, conversions, pickling and modifications, given the getter's cache test read from the AST "
+              "(infosTest_never by kernel decide, getInfos_own); the object Frame.transform returns is separate from its argument (transformObj_separate); copy.deepcopy writes no old cell and stores only new "
               "addresses (stdDeepcopy_separate); StateVector->Orbit->StateVector gives back the coordinates, form, frame and every immutable _data entry; name/alias/index resolution decided over the tables "
               "regenerated from beyond.orbits.forms on every run. The model agrees exactly (object-identity partition incl. memory owners of all buffers and cloned Frame objects, labels, error kinds, bit-identical buffers) with the "
               "real classes on random operation sequences.")
@@ -99,6 +105,7 @@ LEVEL_NOTE = ("shared maneuver objects (kept on purpose by the library) are the 
 TECHNIQUE = "Lean 4 proof over an object-graph (heap) model + kernel decide on regenerated name/alias tables; exact model/implementation correspondence"
 TRUSTED = [
     "harness/props/C15.py form_setter_steps: the order of the effects (convert / store / commit) of StateVector.form.fset read from the AST of statevector.py -> Generated/HeapTables.lean formSetterSteps (an unrecognised statement stops the run as a broken extraction)",
+    "harness/props/C15.py lazy_getters: census of the property getters of StateVector / Orbit that store into _data on read access (must be exactly cov, maneuvers, infos) and the cache test of the infos getter, read from the AST -> Generated/HeapTables.lean infosCacheTest",
     "harness/props/C15.py extract: Form.param_names, Form.alt, forms._cache, _cache_param_names, the frame registry and the property names of the classes, read from live objects (cross-checked against the Form(...) literals in forms.py) -> Generated/FormTables.lean",
     "correspondence: real StateVector/Orbit/Cov objects vs the compiled Lean model on identical operation sequences; after every operation the whole object graph reachable from all variables is compared: "
     "partition of mutable objects by id() and of every ndarray buffer (state vectors, covariances, metadata arrays) by the object that owns its memory, identity of cloned Frame objects, kinds, keys, labels, error kind, and every "
@@ -121,7 +128,8 @@ NOT_COVERED = [
     "copy.copy(sv) / np.copy(sv): ndarray's own protocol, shallow in _data by contract (copy.deepcopy is StateVector.__deepcopy__ since /repo fd4f2bf: modelled as stdDeepcopy, compared by the correspondence, judged by the oracle)",
     "numpy views (sv[:], sv.view()) share the buffer with their parent by numpy's own semantics and are outside the model; setting the form of such a view rewrites the parent's values but not its form label (observed, not filed: a view is not a copy)",
     "after a pickle round trip the Frame objects are clones, so `p.frame = <same name>` runs a (numerically identity) transformation through cartesian instead of doing nothing: modelled and compared, not judged",
-    "the stale `infos` entry of _data (Infos object of the receiver, handed over by copy() as it is and re-created by the getter on every access): cache object of C01 / C08, excluded from the object graphs",
+    "the Infos helper is a WEAK reference of the model (Ref.infos owner gen: compared by identity and owner in every dump, not followed by refsOf): the separation theorems do not speak about it; what the getter hands out has its own "
+    "theorem (getInfos_own). That copy() passes the receiver's helper along in _data is the open finding C15-copy-hands-over-infos-helper; the caches inside an Infos object (_kep, _sphe) are C01 / C08",
     "a form change that fails for another reason than an unknown name (an exception inside Form.__call__): no input of the generators reaches one",
     "Cov frame conversions to/from the Hill frame beyond the error kind; numerical content of covariance rotations (C14); the stale _orb_frame of a Cov re-attached to a state in another frame (C14)",
     "Orbit.propagate / Infos caches (C08, C01)",
@@ -140,12 +148,13 @@ OPEN = [
 RULE = ("correspondence: (a) exhaustive name resolution: every form x every reserved name, alias and two free keys; (b) random sequences of 1-2 constructions (form, frame incl. Hill, Orbit or StateVector, metadata absent / non-empty and nested / "
         "EMPTY containers / empty containers inside non-empty ones, maneuvers, covariance in own/local/other frame) followed by 1-6 operations drawn (weights OP_WEIGHTS) from copy, copy(form), copy(frame), as_orbit, as_statevector, the constructors given "
         "an existing object, form=, form= with leg k of its route made to raise (fault injection, k over the whole route), Frame.transform called directly, frame= (incl. unknown names, Hill, aliases), frame= made to fail by an unreachable centre or by the EOP 'error' policy, setattr/setitem by name/alias/foreign name/free key, index assignment, cov.frame=, a mere read of "
-        "maneuvers, maneuvers.append, append / setitem on metadata containers (also nested, also on keys that are missing or of the wrong type), cov= from values and from the covariance of another object, pickle round trip, copy.deepcopy; targets are "
+        "maneuvers, a read of infos (the helper appears in the dump by identity and with the object it is bound to), maneuvers.append, append / setitem on metadata containers (also nested, also on keys that are missing or of the wrong type), cov= from values and from the covariance of another object, pickle round trip, copy.deepcopy; targets are "
         "drawn among ALL objects alive (copies of copies); a case is non-trivial when it has >= 2 operations; distinct = distinct request line; cases whose buffers hold non-finite numbers are skipped and counted. oracle: for every converting method "
         "(incl. pickle, copy(same=)) x every in-place mutation (every container reachable from _data, in-place arithmetic, the maneuver list through its getter) x both directions, deep snapshot of the other object, plus the identity partition of the two "
         "object graphs; every constructor form of Cov / StateVector / Orbit; every failing setter (unknown name, Hill both ways, unreachable centre, EOP error; on the state and on its covariance) from every form; failing form changes (frame whose centre has no body from spherical/cylindrical/cartesian to every keplerian-family form; hyperbolic, circular-equatorial and rectilinear states under np.errstate(all=raise) from 4 forms to every form; "
         "every leg of routes between the ten forms made to raise, through the setter and through copy(form=)); every public method returning a state object (Frame.transform, Form.__call__, Orbit.propagate/iter/ephem, Ephem.interpolate/propagate/iter/ephem/copy, "
-        "Tle.orbit) by identity partition and mutate-one-observe-other; the same operation sequences as the "
+        "Tle.orbit) by identity partition and mutate-one-observe-other; getter-created helpers: infos read on the original, then every converting method (copy variants, as_orbit, as_statevector, pickle, deepcopy, Frame.transform), "
+        "then one side modified, then `new.infos.orb is new` and nine infos quantities of the new object against those of a fresh object with the same values; in the history oracle `obj.infos.orb is obj` for every object after every step; the same operation sequences as the "
         "correspondence judged step by step by the statement (history oracle); name/alias/index on every form; pickle and StateVector<->Orbit round trips")
 
 FRAMES = ["EME2000", "MOD", "TOD", "TEME", "PEF", "ITRF"]
@@ -1327,6 +1336,98 @@ def check_tle_orbit(out, rng):
         out.fail("shared-coord-after-tle-orbit", "changing one Orbit returned by Tle.orbit() shows in another one / in the Tle", {"producer": "Tle.orbit"})
 
 
+# ---------------------------------------------------------------- oracle: helper objects created by a getter (infos)
+
+def infos_quantities(x):
+    """what the helper `x.infos` says about the orbit (hex strings; an exception is part of the answer)"""
+    res = []
+    for q in ("kep.a", "kep.e", "sphe.r", "period", "pericenter", "apocenter", "energy", "v", "type"):
+        def get():
+            o = x.infos
+            for part in q.split("."):
+                o = getattr(o, part)
+            return o
+        how, val = attempt(get)
+        if how != "ok":
+            res.append((q, how, type(val).__name__))
+        elif hasattr(val, "total_seconds"):
+            res.append((q, float(val.total_seconds()).hex()))
+        elif isinstance(val, str) or val is None:
+            res.append((q, val))
+        else:
+            res.append((q, float(val).hex()))
+    return tuple(res)
+
+
+def fresh_like(x):
+    """a state vector built from scratch with the values x holds now"""
+    import numpy as np
+    from beyond.orbits import StateVector
+    return StateVector([float(v) for v in np.asarray(x)], x._data["date"], x._data["form"], x._data["frame"])
+
+
+def check_infos(out, rng, spec):
+    """the helper a getter creates on read access and keeps in `_data` belongs to the object graph: 'read infos on the original, then
+    copy / convert / pickle, then modify one side, then read infos on both' — the helper each object hands out is bound to that object,
+    and what it says equals what a fresh object with the same values says"""
+    import copy as _copy
+    from beyond.frames.frames import get_frame
+
+    def ops(sv):
+        other = get_frame("ITRF" if sv._data["frame"].name != "ITRF" else "EME2000")
+        return conv_ops(rng, sv) + [("copy.deepcopy", "deepcopy", lambda: _copy.deepcopy(sv)), ("Frame.transform", "transform", lambda: sv.frame.transform(sv, other))]
+
+    def touch(sv):
+        infos_quantities(sv)
+
+    def modify(x):
+        x.form = "keplerian"
+        x[0] = float(x[0]) * 1.3
+        x[1] = min(0.9, float(x[1]) + 0.05)
+
+    probe = make_state(rng, spec)
+    for oi in range(len(ops(probe))):
+        for direction in ("copy", "orig"):
+            st = rng.getstate()
+            sv = make_state(rng, spec)
+            touch(sv)
+            name, kind, op = ops(sv)[oi]
+            how, new = attempt(op)
+            rng.setstate(st)
+            rng.random()
+            inp = {"spec": spec, "op": name, "op_index": oi, "direction": direction, "check": "infos"}
+            if how != "ok":
+                out.fail(f"convert-raises-{kind}", f"{name} after a read of infos raised {type(new).__name__}: {new}", inp, observed=repr(new))
+                break
+            out.count(key=("infos", oi, direction, spec["form"], spec["frame"], spec["orbit"], spec["cov"]), kind="getter-helper", op=kind)
+            if oi == 0 and direction == "copy":
+                stale = new._data.get("infos")
+                if stale is not None and getattr(stale, "orb", None) is sv:
+                    ref = snap_full(sv)
+                    stale.orb[0] = float(stale.orb[0]) + 1.0       # what `new["infos"].orb[0] += 1` does
+                    out.fail("shared-infos-helper-after-copy", "after copy(), the copy's _data holds under 'infos' (reachable as copy['infos']) the helper object of the ORIGINAL, whose `orb` is the original"
+                             + (": writing through it changes the original" if snap_full(sv) != ref else ""), inp,
+                             observed="copy['infos'].orb is original", expected="no entry, or a helper bound to the copy")
+                    continue
+            how, h = attempt(lambda: new.infos)
+            if how != "ok" or h.orb is not new:
+                out.fail(f"infos-not-own-after-{kind}", f"after a read of infos on the original and {name}, the helper `new.infos` hands out is bound to "
+                         + ("the original" if how == "ok" and h.orb is sv else "another object"), inp, observed="new.infos.orb is not new", expected="new.infos.orb is new")
+                continue
+            if direction == "copy":
+                modify(new)
+                got, want = infos_quantities(new), infos_quantities(fresh_like(new))
+                whose = "the modified new object"
+            else:
+                want = infos_quantities(fresh_like(new))
+                modify(sv)
+                got = infos_quantities(new)
+                whose = "the new object after the original was modified"
+            if got != want:
+                out.fail(f"infos-describes-other-after-{kind}", f"after a read of infos on the original and {name}: infos of {whose} differs from infos of a fresh object with the same values", inp,
+                         observed=str(got)[:300], expected=str(want)[:300])
+
+
 # ---------------------------------------------------------------- oracle: the standard library's copy protocol
 
 def check_deepcopy(out, rng, spec):
@@ -1416,6 +1517,12 @@ def check_sequence(out, ops, kep):
             out.fail(f"seq-hang-{op[0]}", f"{where}: the operation does not return", dict(inp, step=n))
             return
         vs = real.vars
+        for j in range(len(vs)):
+            how, hlp = attempt(lambda: vs[j].infos)
+            if how != "ok" or hlp.orb is not vs[j]:
+                out.fail(f"seq-infos-not-own-after-{op[0]}", f"{where}: the helper `infos` of object {j} is bound to another object", dict(inp, step=n, object=j),
+                         observed="obj.infos.orb is not obj", expected="obj.infos.orb is obj")
+                return
         for i in range(len(vs)):
             for j in range(i + 1, len(vs)):
                 sh = [x for x in shared_cells(vs[i], vs[j]) if x[0] != "man-object"]
@@ -1456,6 +1563,8 @@ def oracle(ctx, widened):
     for _ in range(6 if big else 0):
         check_returned_objects(out, rng, rand_spec(rng, mans=0))
     check_tle_orbit(out, rng)
+    for k in range(12 if big else 2):
+        check_infos(out, rng, rand_spec(rng, frame="EME2000", orbit=bool(k % 2), cov=True, covframe=None, mans=1, meta=1))
     for k in range(60 if big else 6):
         spec = rand_spec(rng, covframe=[None, "TNW", "QSW", None][k % 4])
         check_cov_constructors(out, rng, spec)
@@ -1479,7 +1588,9 @@ def replay(f):
     i = f["input"]
     rng = random.Random(0)
     fam = f["family"]
-    if i.get("case", "").startswith("form-"):
+    if i.get("check") == "infos":
+        check_infos(out, rng, i["spec"])
+    elif i.get("case", "").startswith("form-"):
         check_failed_form_change(out, rng, i["spec"], thorough=True)
     elif "producer" in i:
         check_tle_orbit(out, rng) if i["producer"] == "Tle.orbit" else check_returned_objects(out, rng, i["spec"])
@@ -1598,10 +1709,61 @@ def form_setter_steps():
     return steps
 
 
+LAZY_GETTERS = {"cov": "None on first read (immutable)", "maneuvers": "empty list on first read (model: getMans)", "infos": "Infos helper bound to self (model: getInfos)"}
+
+
+def lazy_getters():
+    """census of the property GETTERS of StateVector / Orbit that store something in `_data` on read access, and the cache test of the
+    `infos` getter, both read from the AST: 'never' — `not hasattr(self, X)` with X neither an attribute of the class nor the key the
+    helper is stored under (always true: a new helper on every access); 'inData' — `K not in self._data` (the stored helper is returned)"""
+    import ast
+    import re
+    found = {}
+    test = None
+    for fname in ("statevector.py", "orbit.py"):
+        tree = ast.parse(open(os.path.join(core.REPO, "beyond", "orbits", fname)).read())
+        for cls in tree.body:
+            if not (isinstance(cls, ast.ClassDef) and cls.name in ("StateVector", "Orbit")):
+                continue
+            for f in cls.body:
+                if not (isinstance(f, ast.FunctionDef) and any(ast.unparse(d) == "property" for d in f.decorator_list)):
+                    continue
+                txt = ast.unparse(f)
+                if re.search(r"self\._data\[[^\]]+\]\s*=", txt) or ".setdefault(" in txt:
+                    found[f.name] = f
+    if set(found) != set(LAZY_GETTERS):
+        raise RuntimeError(f"getters that store into _data on read access: {sorted(found)}; modelled: {sorted(LAZY_GETTERS)}")
+    fn = found["infos"]
+    body = [st for st in fn.body if not (isinstance(st, ast.Expr) and isinstance(getattr(st, "value", None), ast.Constant))]
+    if not (len(body) == 2 and isinstance(body[0], ast.If) and not body[0].orelse and len(body[0].body) == 1 and isinstance(body[1], ast.Return)):
+        raise RuntimeError("infos getter: unexpected shape")
+    m = re.fullmatch(r"self\._data\['([^']+)'\] = Infos\(self\)", ast.unparse(body[0].body[0]))
+    if not m or ast.unparse(body[1].value) != f"self._data['{m.group(1)}']":
+        raise RuntimeError("infos getter: does not store / return an Infos(self) kept in _data")
+    key = m.group(1)
+    cond = ast.unparse(body[0].test)
+    m1 = re.fullmatch(r"not hasattr\(self, '([^']+)'\)", cond)
+    m2 = re.fullmatch(rf"'{key}' not in self\._data(?:\.keys\(\))?", cond)
+    if m1:
+        from beyond.orbits import StateVector, Orbit
+        x = m1.group(1)
+        if x == key or hasattr(StateVector, x) or hasattr(Orbit, x):
+            raise RuntimeError(f"infos getter: the guard `{cond}` tests a name that exists")
+        test = "never"
+    elif m2:
+        test = "inData"
+    else:
+        raise RuntimeError(f"infos getter: guard `{cond}` is not modelled")
+    if key != "infos":
+        raise RuntimeError(f"infos getter stores under '{key}'")
+    return test
+
+
 def extract(ctx):
     t = live_tables()
     ctx.tables = t
     t["form_steps"] = form_setter_steps()
+    t["infos_test"] = lazy_getters()
     # the same tables read from the source text (AST) as a self-check of the live extraction
     import ast
     src = open(os.path.join(core.REPO, "beyond", "orbits", "forms.py")).read()
@@ -1633,6 +1795,9 @@ def extract(ctx):
            "/-- effects of `StateVector.form.fset` in source order, read from the AST of beyond/orbits/statevector.py (convert = the Form object / a conversion function is called: computed on a copy, may raise; "
            "store = written into the object's buffer; commit = `self._data[\"form\"] = …`; a loop body appears twice) -/",
            "def formSetterSteps : List String := [" + ", ".join(map(_lstr, t["form_steps"])) + "]",
+           "/-- the cache test of the `infos` getter read from the AST: never = `not hasattr(self, <no attribute>)` (a new helper on every access), inData = `\"infos\" not in self._data` (the stored helper is handed out); "
+           "the getters that store into `_data` on read access are exactly cov, maneuvers, infos (checked) -/",
+           f"def infosCacheTest : String := {_lstr(t['infos_test'])}",
            "end BeyondVerif.Generated.FormTables"]
     ch = core.write_if_changed(os.path.join(core.LEAN, "BeyondVerif", "Generated", "HeapTables.lean"), "\n".join(out) + "\n")
     return ["Generated/HeapTables.lean"] if ch else []
@@ -1745,6 +1910,8 @@ class Real:
             v[int(a[0])][int(a[1])] = int(a[2])
         elif name == "covfr":
             v[int(a[0])].cov.frame = a[1]
+        elif name == "readinfos":  # a read of the helper object the `infos` getter creates and keeps in _data
+            v[int(a[0])].infos
         elif name == "readman":  # a mere look at the maneuvers: the getter creates the list
             bool(v[int(a[0])].maneuvers)
         elif name == "addman":
@@ -1783,8 +1950,10 @@ class Real:
         from beyond.dates import Date
         from beyond.propagators.base import Propagator
         from beyond.frames import frames as _frames
+        from beyond.orbits.statevector import Infos
         seen, vals, problems, keep = {}, [], [], []
         clones = {}
+        helpers = {}
 
         def mem_root(arr):
             """the object that owns the memory an array lives in (a view, or an array built on the buffer of another, is not its own owner)"""
@@ -1864,6 +2033,9 @@ class Real:
                 frs = fr if isinstance(fr, str) else frame_str(fr)
                 ofs = frame_str(of)
                 return f"C{i}({sb},{frs},{ofs},{ref(dd['orb'])})"
+            if isinstance(x, Infos):
+                keep.append(x)
+                return f"I{helpers.setdefault(id(x), len(helpers) + 1)}@{ref(x.orb)}"
             if isinstance(x, Man):
                 i, back = ident(id(x), x)
                 return back or f"M{i}={x.comment[1:]}"
@@ -2012,7 +2184,7 @@ SET_NAMES = ["x", "vz", "a", "e", "i", "raan", "Omega", "Ω", "omega", "nu", "ν
 
 META_KEYS = ["tags", "nested", "name", "arr", "zz"]
 OP_WEIGHTS = [("copy", 12), ("copyf", 9), ("copyfr", 10), ("aso", 7), ("assv", 5), ("ctor", 3), ("setf", 7), ("setfx", 5), ("xform", 6), ("setfr", 11), ("setfrx", 4), ("seta", 5), ("seti", 3),
-              ("covfr", 5), ("readman", 5), ("addman", 5), ("lappend", 4), ("dset", 3), ("nappend", 3), ("aset", 2), ("setcov", 3), ("covfrom", 5), ("pickle", 5)]
+              ("covfr", 5), ("readman", 5), ("readinfos", 7), ("addman", 5), ("lappend", 4), ("dset", 3), ("nappend", 3), ("aset", 2), ("setcov", 3), ("covfrom", 5), ("pickle", 5)]
 
 
 def rand_ops(rng, maxlen=6, dcopy=True):
@@ -2033,7 +2205,7 @@ def rand_ops(rng, maxlen=6, dcopy=True):
         name = rng.choices(names, weights)[0]
         if dcopy and rng.random() < 0.04:
             name = "dcopy"
-        if name in ("copy", "aso", "assv", "readman", "pickle", "dcopy"):
+        if name in ("copy", "aso", "assv", "readman", "readinfos", "pickle", "dcopy"):
             op = [name, i]
         elif name in ("copyf", "setf"):
             op = [name, i, form]
